@@ -20,7 +20,7 @@ from __future__ import annotations
 import sys
 
 from .ctx import Mismatch
-from .machines import candidates, expected_group, initial_enter_expected, initial_state
+from .machines import candidates, entry_names, expected_group, initial_enter_expected, initial_state
 
 UNSET = object()
 ANY = object()  # outcome value that is not checked (e.g. a constructor's return)
@@ -62,12 +62,14 @@ class Script:
         self.occ = {}
         self.sm = None
         self.muted = False
-        self.guard_names = {g for t in am["transitions"] for g in list(t.get("cond", [])) + list(t.get("unless", []))}
+        self.guard_names = {n for t in am["transitions"] for g in list(t.get("cond", [])) + list(t.get("unless", [])) for n in entry_names(g)}
         self.validator_names = {g for t in am["transitions"] for g in t.get("validators", [])}
         self.result_names = None
         self.measure_depth = measure_depth
         self.lib_root = lib_root
         self.unawaited = []
+        self.call_index = 0
+        self.yields_by_name = {}
         self.coros = []
         self.policy = policy
         self._first_trigger = None
@@ -116,7 +118,7 @@ class Script:
             key = (provider, name, info["event"])
             occ = self.occ.get(key, 0)
             self.occ[key] = occ + 1
-            label = f"{provider}.{name}@{info['event']}#{occ}"
+            label = f"{provider}.{name}@{info['event']}#{self.call_index}.{occ}" if self.call_index else f"{provider}.{name}@{info['event']}#{occ}"
             self.log.append(("cb", idx, provider, name, info))
         act = self._decide_action(idx, provider, name, info, label, guard=name in self.guard_names)
         if act is not None and act[0] == "raise":
@@ -179,7 +181,7 @@ class Script:
                 self._send_failed(idx, ev, e)
                 raise
             self.log.append(("sent", idx, ev, ret))
-        for _ in range(self.yields):
+        for _ in range(self.yields_by_name.get(name, self.yields)):
             await asyncio.sleep(0)
         return self._end(idx, name, label)
 
@@ -240,6 +242,10 @@ class Script:
 
 
 # ======================================================================================= acceptor
+class _Unread(Exception):
+    pass
+
+
 class Reject(Exception):
     def __init__(self, kind, msg):
         super().__init__(f"{kind}: {msg}")
@@ -272,6 +278,7 @@ class Acceptor:
         self.start_id = start_id or initial_state(am)["id"]
         self.check_cur = check_cur
         self.orphans = set()
+        self.orphan_pending = set()  # (provider, name, event) of group-mates that may still start after a failed gather
         self.fired = []  # (event, transition index in am, src, tgt)
         self.depths = []
         self.nested_happened = False
@@ -283,8 +290,13 @@ class Acceptor:
     def peek(self):
         while self.pos < len(self.log):
             r = self.log[self.pos]
-            if r[0] in ("end", "sent") and r[1] in self.orphans:
+            if r[0] in ("end", "sent", "raise", "send", "sendexc") and r[1] in self.orphans:
                 self.pos += 1  # left-overs of callbacks abandoned by a failed gather (tolerance, see DESIGN)
+                continue
+            if r[0] == "cb" and (r[2], r[3], r[4]["event"]) in self.orphan_pending:
+                self.orphan_pending.discard((r[2], r[3], r[4]["event"]))
+                self.orphans.add(r[1])
+                self.pos += 1
                 continue
             return r
         return None
@@ -357,6 +369,7 @@ class Acceptor:
             if not r[1]:
                 continue
             results = []
+            by_group = {"before": [], "on": []}
             tgt = t["tgt"]
             for phase in ("before", "exit", "on"):
                 r = self.group(expected_group(am, t, ev, phase), ev, src, src, tgt, queue, phase)
@@ -364,6 +377,7 @@ class Acceptor:
                     return r
                 if phase in ("before", "on"):
                     results += r[1]
+                    by_group[phase] = list(r[1])
             self.cur = tgt
             for phase in ("enter", "after"):
                 r = self.group(expected_group(am, t, ev, phase), ev, tgt, src, tgt, queue, phase)
@@ -374,7 +388,7 @@ class Acceptor:
                 return ("ok", None)
             if len(results) == 1:
                 return ("ok", results[0])
-            return ("ok", results)
+            return ("ok", GroupedResult(by_group["before"], by_group["on"]))
         if self.allow:
             return ("ok", None)
         return ("abort", ("TNA", ev, src))
@@ -406,30 +420,56 @@ class Acceptor:
             raise Reject("guard-not-completed", f"guard(s) {sorted(open_.values())} of {t['src']}->{t['tgt']} still running when {brief(self.peek())}")
         status = "pass"
         for entry, expected in [(c, True) for c in t.get("cond", [])] + [(u, False) for u in t.get("unless", [])]:
-            provs = [p for p, n in exp if n == entry]
-            if expected is False and len(provs) > 1:
-                # the value of a name provided by several objects is the conjunction of their values; `unless` wants it falsy
-                group = [p for p in provs if self.unless_anyfalsy_group is None or p in self.unless_anyfalsy_group]
-                grp = [reads.get((p, entry), UNSET) for p in group]
-                rest = [reads.get((p, entry), UNSET) for p in provs if p not in group]
-                if any(v is False for v in grp):
-                    vals = rest
-                elif all(v is True for v in grp):
-                    vals = [True]
-                else:
-                    vals = [UNSET]
-            else:
-                vals = [reads.get((p, entry), UNSET) for p in provs]
-            if any(v is not UNSET and v != expected for v in vals):
+            val = self.entry_value(entry, exp, reads, expected)
+            if val is UNSET:
+                status = "unknown" if status == "pass" else status
+            elif val != expected:
                 status = "fail"
                 break
-            if any(v is UNSET for v in vals):
-                status = "unknown"
         if status == "unknown":
             # the implementation went on without reading every guard although none of those read failed
             nxt = self.peek()
             raise Reject("guards-not-all-read", f"{t['src']}->{t['tgt']} on {ev}: read {reads}, then {brief(nxt)}")
         return ("ok", status == "pass")
+
+    def name_value(self, name, exp, reads, separate_late):
+        """Value of a guard name: the conjunction over its providers (UNSET if not decidable from what was read)."""
+        provs = [p for p, n in exp if n == name]
+        group = [p for p in provs if self.unless_anyfalsy_group is None or p in self.unless_anyfalsy_group or not separate_late]
+        vals = [reads.get((p, name), UNSET) for p in group]
+        if any(v is False for v in vals):
+            return False
+        if all(v is True for v in vals):
+            return True
+        return UNSET
+
+    def entry_value(self, entry, exp, reads, expected):
+        names = entry_names(entry)
+        if names == [entry]:
+            v = self.name_value(entry, exp, reads, True)
+            if expected is False and self.unless_anyfalsy_group is not None:
+                # diagnosis mode: providers outside the group are judged on their own
+                rest = [reads.get((p, entry), UNSET) for p, n in exp if n == entry and p not in self.unless_anyfalsy_group]
+                if v is False:
+                    if any(r is True for r in rest):
+                        return True
+                    if any(r is UNSET for r in rest):
+                        return UNSET
+                    return False
+                return v
+            return v
+
+        class NS(dict):
+            def __missing__(ns, k):  # noqa: N805
+                v = self.name_value(k, exp, reads, False)
+                if v is UNSET:
+                    raise _Unread(k)
+                return v
+
+        try:
+            return bool(eval(entry, {"__builtins__": {}}, NS()))  # noqa: S307 - our own guard expressions
+        except _Unread:
+            return UNSET
 
     # ------------------------------------------------------------------ one callback group
     def check_info(self, rec, ev, view, src, tgt, phase):
@@ -478,6 +518,8 @@ class Acceptor:
                 r = self.nested_send(rec, queue)
                 if r is not None:
                     self.orphans |= set(open_) - {rec[1]}
+                    if self.is_async:
+                        self.orphan_pending |= {(p, n, ev) for p, n in remaining}
                     return r
             elif kind == "end" and rec[1] in open_:
                 self.take()
@@ -486,6 +528,8 @@ class Acceptor:
             elif kind == "raise" and rec[1] in open_:
                 self.take()
                 self.orphans |= set(open_) - {rec[1]}
+                if self.is_async:
+                    self.orphan_pending |= {(p, n, ev) for p, n in remaining}
                 return ("abort", ("Boom", rec[1]))
             else:
                 raise Reject("unexpected-record", f"{brief(rec)} while {phase} of {ev} expects {remaining} / running {sorted(open_.values())}")
@@ -516,8 +560,47 @@ class Acceptor:
         return None
 
 
+class GroupedResult:
+    """Expected list result: the before values in any order, then the on values in any order (order inside a
+    group is undocumented: the sync engine uses registration order, asyncio.gather argument order)."""
+
+    def __init__(self, before, on):
+        self.before = list(before)
+        self.on = list(on)
+
+    def __repr__(self):
+        return f"before{self.before!r}+on{self.on!r}"
+
+
+def _perm_equal(xs, ys):
+    ys = list(ys)
+    for x in xs:
+        hit = None
+        for i, y in enumerate(ys):
+            if x is y:
+                hit = i
+                break
+        if hit is None:
+            for i, y in enumerate(ys):
+                if same_value(x, y):
+                    hit = i
+                    break
+        if hit is None:
+            return False
+        ys.pop(hit)
+    return not ys
+
+
 def same_value(a, b):
     """Equality that also distinguishes kinds ([] vs None vs 0 vs '' vs ()) and is safe on symbolic ints."""
+    if isinstance(b, GroupedResult):
+        a, b = b, a
+    if isinstance(a, GroupedResult):
+        if isinstance(b, GroupedResult):
+            return _perm_equal(a.before, b.before) and _perm_equal(a.on, b.on)
+        if type(b) is not list or len(b) != len(a.before) + len(a.on):
+            return False
+        return _perm_equal(a.before, b[: len(a.before)]) and _perm_equal(a.on, b[len(a.before):])
     if a is None or b is None:
         return a is None and b is None
     if isinstance(a, (list, tuple)) or isinstance(b, (list, tuple)):
@@ -529,6 +612,14 @@ def same_value(a, b):
     if isinstance(a, bool) != isinstance(b, bool):
         return False
     return True if a == b else False
+
+
+def next_call(script, k):
+    """Start a new top-level call: callback occurrences (and thus draw labels) are counted per call."""
+    del script.log[:]
+    script._first_trigger = None
+    script.call_index = k
+    script.occ = {}
 
 
 def never_started(script):
